@@ -24,3 +24,13 @@ package stream
 func verifLoopsStarted(*tsTable, chan *flusherIntroduction, chan *mergerIntroduction) {}
 
 func verifFlusherGate(*tsTable) {}
+
+func verifSnapshotReplaced(*tsTable, *snapshot) {}
+
+func verifSnapshotRef(*snapshot, int32, int32) {}
+
+func verifPartReleased(*partWrapper) {}
+
+func verifPartRemoving(*partWrapper) {}
+
+func verifPause(string) {}
